@@ -288,9 +288,15 @@ def _tree_hash(paths):
 
 def build_driver():
     """Extract the model and build the OCaml driver; returns the binary path."""
-    ok, out = coq_make(None)
+    # only the model files Extract.v imports (and what they depend on): a proof obligation that no longer
+    # checks must not keep the executable model from being built - the search for a failing input needs it
+    ext = open(os.path.join(COQ, "Extract.v")).read()
+    mods = []
+    for m in re.finditer(r"From HclV Require Import ([^.]*)\.", ext):
+        mods += m.group(1).split()
+    ok, out = coq_make(["theories/%s.vo" % m for m in mods])
     if not ok:
-        raise BuildError("coq build failed:\n" + out[-4000:])
+        raise BuildError("coq build of the model failed:\n" + out[-4000:])
     with Lock("driver"):
         srcs = [os.path.join(COQ, "Extract.v"), os.path.join(VERIF, "driver", "glue.ml"),
                 os.path.join(VERIF, "driver", "main.ml")]
